@@ -26,6 +26,12 @@ CHECKS = {
  'C20': dict(engine='E1-enum', technique='bounded-exhaustive enumeration of object terms (all carriers x all item tuples up to size 3, nested two to three levels, views, self-referential containers) through infer_hint and is_bearable for every draw residue',
    text='For ~6000 (quick) enumerated objects is_bearable(obj, infer_hint(obj)) must be True for every residue of the sampler draw under the default inference; inference must return without foreign warnings or exceptions under both configurations; self-referential containers must terminate, with the recursion warning exactly when the cycle was reached. Four families of failing inputs on the unchanged tree are listed as known findings.',
    note='Acceptance is asserted for the default linear-time inference only.', ref='5/C20'),
+ 'C17': dict(engine='E2-snap', technique='fork-snapshot depth-first search over creation histories of BeartypeConf on the real process state, each node judged against a declarative option table and against the same operation in a fresh process',
+   text='Every history of BeartypeConf(**kw) creations up to length 2 (quick: second step restricted to same-option and sampled other operations; thorough: all pairs, and length 3 over a core) over ~165 keyword sets (explicit defaults, valid values, invalid values, equal-but-not-identical look-alikes, option pairs in both keyword orders) is executed by forking the process at every node. Validation outcome, read-back, memoisation (identity for equal arguments in any order), inequality of different arguments, hash/eq and kwargs round trip are checked at every node, and every observation must equal the fresh-process observation.',
+   note='States are real processes (fork), so nothing is assumed about which tables hold the memoised state; the option table SPEC is the trusted contract.', ref='5/C17'),
+ 'C14': dict(engine='E2-snap', technique='fork-snapshot depth-first search over histories of public-API operations chosen to collide in memo tables; differential against the fresh-process answer',
+   text='Every history of length <= 2 (3 thorough, first steps over a core) over 49 (97 thorough) operations - checks, subhint queries, TypeHint comparisons, decorations over equal-but-distinct hints, hash-equal literals, classes and TypeVars with identical repr, unhashable hints, forward references resolved in two scopes or failing first, same-named class redefinitions, id() reuse after gc, clear_caches - is executed by forking the real process at every node; the last operation must observe exactly what it observes in a fresh process.',
+   note='Observations are address-free; equal hints are treated as interchangeable.', ref='5/C14'),
 }
 NOT_YET = {}
 for i in range(1, 21):
@@ -40,6 +46,7 @@ def main():
       'hooks': {'guard': 'BEARTYPE_VERIF', 'enable': 'no source hooks are needed: checks import /repo working tree as is (PYTHONPATH=/repo) and own nondeterminism through module attributes at run time',
                 'baseline_off_cmd': BASE_CMD, 'source_commits': [], 'add_only': True},
       'engines': [
+        {'name': 'E2-snap', 'path': 'bearmc/snap.py', 'serves_properties': sorted(k for k, v in CHECKS.items() if v['engine'] == 'E2-snap'), 'kind_free_text': 'explicit-state search over histories where a state is a forked process of the real implementation'},
         {'name': 'E1-enum', 'path': 'bearmc/hintenum.py', 'serves_properties': sorted(k for k, v in CHECKS.items() if v['engine'] == 'E1-enum'), 'kind_free_text': 'bounded-exhaustive grammar enumeration against reference models, sharded over 16 forked workers'},
       ],
       'checks': [], 'not_applicable': [{'property_id': k, 'reason': v} for k, v in sorted(NOT_YET.items())],
